@@ -189,9 +189,14 @@ func runCheck(id string, p *prop, tier string, seed int64, onlyBatch int, keep, 
 
 	nb := p.QuickBatches
 	timeout := p.QuickTimeoutS
+	scale := 1
 	if tier == "thorough" {
 		nb = p.ThoroughBatches
 		timeout = p.ThoroughTimeoutS
+		if p.ThoroughScale > 1 {
+			scale = p.ThoroughScale
+			timeout *= scale
+		}
 	}
 	if nb < 1 {
 		nb = 1
@@ -226,6 +231,7 @@ func runCheck(id string, p *prop, tier string, seed int64, onlyBatch int, keep, 
 					"VERIF_PROP="+id,
 					"VERIF_SEED="+strconv.FormatInt(seed, 10),
 					"VERIF_TIER="+tier,
+					fmt.Sprintf("VERIF_SCALE=%d", scale),
 					"VERIF_BATCH="+strconv.Itoa(j.b),
 					"VERIF_NBATCH="+strconv.Itoa(nb),
 					"VERIF_OUT="+runDir,
